@@ -555,3 +555,27 @@ func VerifNormaliseLink(href string, pageURL *nurl.URL) (string, bool) {
 	tmp.RawPath = tmp.Path
 	return stringutil.UnescapedString(tmp), true
 }
+
+// VerifGroupOp is one call on a MonotonicPageInfoGroups: Kind 0 = AddGroup, 1 = AddPageInfo,
+// 2 = CleanUp.
+type VerifGroupOp struct {
+	Kind int
+	Num  int
+	URL  string
+}
+
+// VerifMonotonicGroups replays the calls on a fresh MonotonicPageInfoGroups.
+func VerifMonotonicGroups(ops []VerifGroupOp) []VerifPageGroup {
+	g := &info.MonotonicPageInfoGroups{}
+	for _, op := range ops {
+		switch op.Kind {
+		case 0:
+			g.AddGroup()
+		case 1:
+			g.AddPageInfo(&info.PageInfo{PageNumber: op.Num, URL: op.URL})
+		default:
+			g.CleanUp()
+		}
+	}
+	return verifGroups(g)
+}
